@@ -76,6 +76,16 @@ claimed = {
   text="rapid builds types from a recursive grammar and, for linux/amd64, arm64, riscv64, 386, arm and wasip1/wasm, compares the numbers that fold unsafe.Sizeof/Alignof/Offsetof, the LLVM data layout generated code uses, and what the descriptor builder records. Exploration only; in-process (no code of the 32-bit targets is executed).",
   note="Three classes of disagreement are genuine findings listed in known_findings.json (64-bit scalars on 32-bit targets, trailing zero-size fields, wasm nested structs) and are keyed separately; host-C-compiler agreement is not yet part of this check.",
   design="§3 C08"),
+ "C01": dict(
+  technique="differential testing of rapid-generated multi-package programs (template grammar over the core language) against gc, compared per unit",
+  text="rapid composes import-free 5-package modules from 10-24 units drawn from 16 templates of the core language with random constants, types and package placement; each is built by gc and by the llgo under test at O0, O2 and O2+nogc (thorough: also Oz, O0+nogc, O1, O3) and compared unit by unit, plus process termination (normal, uncaught panic, run-time fault). Exploration only.",
+  note="A template grammar, not a free expression grammar: breadth comes from combining templates, constants, types and package splits; gc defines expected output; LLVM 14.",
+  design="§3 C01"),
+ "C14": dict(
+  technique="differential testing of rapid-generated naming-hazard programs against gc (every entity returns its own token)",
+  text="Programs built only from the naming-hazard templates of the generator (two packages with the same name and identical declarations, nested closures in methods, closures in initialisers/init, generics instantiated with same-named local types from several packages, bound methods, dotted paths) are built by gc and llgo (O0, O2, O2+nogc) and must print identical tokens. Exploration only.",
+  note="End-to-end only: a merged or mis-bound symbol shows as a wrong token or link failure; the naming functions are not checked in-process and mergeable definitions are not diffed; no linkname/export directives.",
+  design="§3 C14"),
 }
 not_yet = "check not built yet in this session (see DESIGN.md §3 for the planned generated-input check)"
 
